@@ -3,7 +3,7 @@
    check_case: the model computes what the implementation (and the library) did.
    spec_case : what the implementation did satisfies the specification, judged on the
                observations alone (no model function on the judged side). *)
-From Sdns Require Export Common.Base Gen.C05 C05.Model C05.Edns C05.Chase C05.Verdict.
+From Sdns Require Export Common.Base Gen.C05 C05.Model C05.Edns C05.Chase C05.Verdict C05.Climit C05.Prepare.
 Open Scope N_scope.
 
 (* what dns.Msg.Unpack did on the packet: error, or the number of decoded questions and
@@ -55,7 +55,18 @@ Inductive case :=
               (full : vbody N) (code_flags : vflags) (code_stripped : option (vbody N * vflags))
               (code_choice : N) (code_choice_flags : vflags) (code_info_dnssec : bool)
               (wire_bytes : list N) (route_served : bool)
-              (wire_reply msg_reply : option (vbody N)).
+              (wire_reply msg_reply : option (vbody N))
+  (* the per-client limiter on the real RateLimit.ServeDNS (driver `climit`, package middleware/ratelimit): one
+     packet served as a wire-born request on one RateLimit and as the decoded message on a twin, both clients'
+     limiters in the same state before.  [gate]: replay pass / internal writer / rate 0 / no address / loopback;
+     [cached] / [tokens]: the client's remembered cookie and whole tokens before (refill stopped); [srv]: the
+     sha256 part of dnsutil.GenerateServerCookie for every client half in the packet; [os]: the options of the
+     message's OPT as the library decodes them; [echo]: Request.CookieEcho() of the wire-born request (None:
+     ParseWire refused the packet - decoded observation only); observations: what happened (0 rest of the chain
+     ran / 1 nothing written / 2 BADCOOKIE with these options in the reply OPT), cookie and tokens afterwards *)
+| CaseClientRL (gate : crl_gate) (udp : bool) (cached : list N) (tokens : N) (srv : list (list N * list N))
+               (os : list lopt) (echo : option (list N))
+               (obs_wire obs_msg : option (N * list lopt * list N * N)).
 
 Fixpoint bytes_eqb (a b : list N) : bool :=
   match a, b with
@@ -150,6 +161,30 @@ Definition vchoice_eqb (a b : option (vbody N * vflags)) : bool :=
 Definition vflags_num (f : vflags) : N :=
   (if vf_eligible f then 1 else 0) + (if vf_dnssec f then 2 else 0) + (if vf_chase_safe f then 4 else 0).
 
+(* per-client limiter cases *)
+Fixpoint crl_lookup (tab : list (list N * list N)) (c : list N) : list N :=
+  match tab with
+  | [] => []
+  | (k, v) :: rest => if bytes_eqb k c then v else crl_lookup rest c
+  end.
+Definition lopt_eqb (a b : lopt) : bool := (lo_code a =? lo_code b) && bytes_eqb (lo_data a) (lo_data b).
+Fixpoint lopts_eqb (a b : list lopt) : bool :=
+  match a, b with
+  | [], [] => true
+  | x :: xs, y :: ys => lopt_eqb x y && lopts_eqb xs ys
+  | _, _ => false
+  end.
+Definition crl_obs_eqb (os : list lopt) (r : crl_out * crl_state) (o : N * list lopt * list N * N) : bool :=
+  let '(kind, ropts, cookie, toks) := o in
+  match fst r with
+  | CrlNext => kind =? 0
+  | CrlDrop => kind =? 1
+  | CrlBadCookie idx c => (kind =? 2) && lopts_eqb (crl_replace idx c os) ropts
+  end && bytes_eqb (crl_cookie (snd r)) cookie && (crl_tokens (snd r) =? toks).
+Definition crl_obs_same (a b : N * list lopt * list N * N) : bool :=
+  let '(k1, o1, c1, t1) := a in let '(k2, o2, c2, t2) := b in
+  (k1 =? k2) && lopts_eqb o1 o2 && bytes_eqb c1 c2 && (t1 =? t2).
+
 (* the model's walk / composition / decoded chase on a view *)
 Definition model_collect (qtype qname : N) (v : centry N * list (N * centry N)) :=
   collect N (fun n => n) N.eqb (chase_lookup (snd v)) qtype 10 qname qname (fst v) [].
@@ -217,7 +252,10 @@ Definition check_case (c : case) : bool :=
       (* the translated prepareWireServe on the stored octets = the stored flag byte *)
       match bytes with
       | [] => true
-      | _ => match go_prepareWireServe 300 bytes with Some n => n =? vflags_num cflags | None => false end
+      | _ => match go_prepareWireServe 300 bytes with Some n => n =? vflags_num cflags | None => false end &&
+             (* ... and the walk of the translated parsers over them meets the decoded body's record types
+                (premises of Proofs_prepare.gen_prepare_wire_serve on this entry) *)
+             stored_walk_ok 300 bytes qtype full
       end &&
       (* the DO-class gates: a byte-served exact hit is one the model serves, with that body *)
       match wire_exact N e do with
@@ -230,6 +268,17 @@ Definition check_case (c : case) : bool :=
           if vf_chase_safe (ve_flags N e) && no_self_alias N (fun n => n) N.eqb qname (vb_an N full)
           then vbody_eqb (edns_write_msg N qtype do full) m else true
       | None => true
+      end
+  | CaseClientRL g udp cached tokens srv os echo ow om =>
+      let st := mk_crl_state cached tokens in
+      match echo, ow with
+      | Some e, Some o => crl_obs_eqb os (crl_serve_wire (crl_lookup srv) g udp st e os) o
+      | None, None => true
+      | _, _ => false
+      end &&
+      match om with
+      | Some o => crl_obs_eqb os (crl_serve_msg (crl_lookup srv) g udp st os) o
+      | None => false
       end
   end.
 
@@ -277,4 +326,7 @@ Definition spec_case (c : case) : bool :=
       (* observations only: the byte-served exact hit and the decoded reply for the same packet on the same
          history carry the same rcode and the same three sections, record for record *)
       match wrep, mrep with Some w, Some m => vbody_eqb w m | _, _ => true end
+  | CaseClientRL _ _ _ _ _ _ _ ow om =>
+      (* observations only: same hand-over / drop / BADCOOKIE reply, same cookie remembered, same tokens left *)
+      match ow, om with Some a, Some b => crl_obs_same a b | _, _ => true end
   end.
